@@ -386,11 +386,11 @@ def h_owners(ctx, cfg):
 def plan(tier):
     if tier == 'quick':
         return [
-            dict(name='order-K2', fn='h_order', depth=9, budget_s=300, cfg=dict(K=2, max_apps=3, foreign_kw=False),
+            dict(name='order-K2', fn='h_order', depth=9, budget_s=900, cfg=dict(K=2, max_apps=3, foreign_kw=False),
                  bounds='functions with 1..2 positional-or-keyword parameters (default/star variants) x kwoargs/posoargs selections x autokwoargs x annotate(one parameter) x all permutations of 2..3 applications x calls n<=len+1, every keyword subset of the parameter names; symbolic values',
                  min_nontrivial=300, must_reach=['same-signature-in-any-order', 'same-result-in-any-order',
                                                  'annotate-visible-through-translators']),
-            dict(name='history-L3', fn='h_history', depth=8, budget_s=300, cfg=dict(L=3),
+            dict(name='history-L3', fn='h_history', depth=8, budget_s=900, cfg=dict(L=3),
                  bounds='6 descriptor kinds (control, _PokTranslator, _ForgerWrapper plain/emulated, _SimpleWrapped, _Wrapped) x histories of <=3 operations over 2 instances',
                  min_nontrivial=300, must_reach=['retrieval-history-free', 'call-bound-to-right-instance',
                                                  'instance-reclaimed-after-drop', 'repeated-binding-equal']),
